@@ -6,7 +6,7 @@ import random
 import re
 
 from .. import core, inst, tlc, zoo
-from ..gen import random_heap
+from ..gen import random_heap, wide_heap
 from ..heap import Slots, World, norm_heap, slot_order
 from ..xpathtext import render
 
@@ -275,7 +275,11 @@ def _record(chunk, arg):
                               ["Leaf", "FLeaf", "FUnary", "Unary", "Many", "Rich"]])
         wide = rng.random() < 0.4
         nobj = rng.randrange(4, arg["maxobj"])
-        h = random_heap(rng, zi, nobj, classes, max_tuple=13 if wide else 3, share=0.0)
+        if wide:
+            h = wide_heap(rng, "Leaf", "Many", "items", "Unary")
+            nobj = len(h)
+        else:
+            h = random_heap(rng, zi, nobj, classes, max_tuple=3, share=0.0)
         root = f"s{nobj}"
         # drop sharing: random_heap with share=0 can still reuse when nothing is free; keep only proper trees
         objs = W.build(h)
